@@ -9,11 +9,13 @@ EXPLANATION = (
     "to the record's offset (size field, length, raw payload, scaled offsets) has a summand in the size estimate with the "
     "same source and a compatible kind (vu64 codec <-> encoded_len(source), raw bytes <-> the length itself, fixed-width "
     "codec <-> its width, size field <-> encoded_len(ceil(payload/8))). (2) The slot is sized from that estimate and "
-    "honoured: round-up argument is estimate.0 + estimate.1, an allocated record gets the rounded size, the in-place arm "
+    "honoured: round-up argument is (size-field length + payload length) of the estimate, found by meaning not position, an allocated record gets the rounded size, the in-place arm "
     "keeps the old slot size (checked with C06's writer rules), and the record writer ends with a zero pad up to "
     "offset + size that is dominated by all field writes. (3) Size-class / free-list tables are sane. (4) Contract of "
     "the dependency's bounded small-buffer primitives (debug_assert on the buffer length in rabuf): payload-sized data "
-    "must not be routed through them unless its origin is a fixed-size array or a dominating length guard exists.")
+    "must not be routed through them unless its origin is a fixed-size array or a dominating length guard exists. "
+    "(5) The lib's own vu64 field reader consumes exactly decoded_len(first) bytes on every arm, and the helpers that step "
+    "over a record's size field skip decoded_len(first) - 1 bytes, decided by that length itself.")
 NOT_DECIDED = ("the arithmetic itself: that encoded_len, the round-up and the vu64 codec make the estimate an upper bound for "
                "all lengths and offset widths (a solver question); byte-for-byte read-back.")
 ASSUMPTIONS = ["vu64::encoded_len(x) is the number of bytes encode_and_write_vu64(x) emits (dependency fact)",
